@@ -380,3 +380,42 @@ def rep_block_corruption(seed):
     r, o = rec.check(); d.append("check -> %s" % o["exit"])
     a.destroy()
     return rec, d
+
+
+def twins_swapped_fix(seed):
+    """C19 with trusted inode numbers: two files with the same size and time stamp exchange their names; fix puts the recorded
+    bytes back under each name but must not make the files look like the recorded ones to the next scan by inode (each path now
+    carries the inode number recorded for the other file): the next sync reads both again and check finds nothing"""
+    import os
+    conf = arr.Conf(nd=2, np=1, copies=2)
+    conf.inomode = True
+    a = arr.Array(conf, seed=seed)
+    a.write_file(0, "X", [1, 2], mtime=11)
+    a.write_file(0, "Y", [3, 4], mtime=11)
+    a.write_file(0, "K", [5], mtime=12)
+    a.write_file(1, "C", [6, 7, 8], mtime=13)
+    rec = recorder.Recorder(a)
+    d = ["init X Y (same size, same stamp) K / C"]
+    r, o = rec.sync(); d.append("sync -> %s" % o["exit"])
+    a.clock += 10
+    r, o = rec.sync(); d.append("sync -> %s" % o["exit"])
+    px, py = a.path(0, "X"), a.path(0, "Y")
+    os.rename(px, px + ".t"); os.rename(py, px); os.rename(px + ".t", py)
+    rec.env("X and Y exchange their names", damage=True); d.append("swap X <-> Y")
+    r, o = rec.diff(); d.append("diff -> %s" % o["exit"])
+    r, o = rec.check(); d.append("check -> %s" % o["exit"])
+    r, o = rec.fix(); d.append("fix -> %s" % o["exit"])
+    r, o = rec.diff(); d.append("diff -> %s" % o["exit"])
+    a.clock += 10
+    r, o = rec.sync(); d.append("sync -> %s" % o["exit"])
+    r, o = rec.check("-a"); d.append("check -a -> %s" % o["exit"])
+    r, o = rec.check(); d.append("check -> %s" % o["exit"])
+    # the same exchange followed by a sync instead of a fix: two moves, nothing is read, everything stays right
+    os.rename(px, px + ".t"); os.rename(py, px); os.rename(px + ".t", py)
+    rec.env("X and Y exchange their names again"); d.append("swap X <-> Y")
+    r, o = rec.diff(); d.append("diff -> %s" % o["exit"])
+    a.clock += 10
+    r, o = rec.sync(); d.append("sync -> %s" % o["exit"])
+    r, o = rec.check(); d.append("check -> %s" % o["exit"])
+    a.destroy()
+    return rec, d
